@@ -516,6 +516,9 @@ SetField(st, old, new, pos, valid) ==
            fc == FieldClass(old.rt, st.ver, pos) IN
     IF fc = "ref" THEN {Fail(st, "Error")}
     ELSE IF fc = "name" \/ Ambiguous(st) THEN {Unmodelled(st)}
+    \* (the external sequence of a fragment is the key under which it is registered: a value that is
+    \* no oriented identifier is refused at every level, like an invalid name in a rename)
+    ELSE IF valid # "valid" /\ old.rt = "F" /\ pos = 2 THEN {Fail(st, "Error")}
     ELSE IF valid # "valid" THEN (IF st.vlevel >= 3 THEN {Fail(st, "Error")} ELSE {Unmodelled(st)})
     ELSE {Ok([st EXCEPT !.lines[i] = new])}
 
